@@ -145,7 +145,8 @@ func (p *planner) getFunctionOrder(script any) {
 	case *logql_parser.AggOperator:
 		script := script.(*logql_parser.AggOperator)
 		p.getFunctionOrder(&script.LRAOrUnwrap)
-		if script.ByOrWithoutPrefix != nil || script.ByOrWithoutSuffix != nil && p.matrixFunctionsLabelsIDX == -1 {
+		// the aggregation attaches the labels of its groups (also without grouping clause: the empty set)
+		if p.matrixFunctionsLabelsIDX == -1 {
 			p.matrixFunctionsLabelsIDX = len(p.matrixFunctionsOrder)
 		}
 		p.matrixFunctionsOrder = append(p.matrixFunctionsOrder, func() error {
